@@ -23,6 +23,7 @@ import Fca.Drv.C17
 import Fca.Drv.C12
 import Fca.Drv.C11
 import Fca.Drv.C10
+import Fca.Drv.Casp
 open Lean Fca.Drv
 
 def allHandlers : List (String × Handler) :=
@@ -46,7 +47,8 @@ def allHandlers : List (String × Handler) :=
   Fca.Drv.C17.handlers ++
   Fca.Drv.C12.handlers ++
   Fca.Drv.C11.handlers ++
-  Fca.Drv.C10.handlers
+  Fca.Drv.C10.handlers ++
+  Fca.Drv.Casp.handlers
 
 def dispatch (line : String) : String :=
   match Json.parse line with
